@@ -1188,6 +1188,33 @@ def m_opt_or(c):
             c.ret(v, src_loc=vl, st=s)
 
 
+def run_closure_ret_bool(c, s, clo, args):
+    """like run_closure_ret for a predicate: an undecided result is split into its two values while the closure's frame is still alive, so that what
+    the closure established on its `true` path (the variant it matched, the comparison it made) stays attached to the value `true` of the result
+    when the caller joins the outcomes (guards keyed on the destination boolean)"""
+    r = c.I.call_closure(c, clo, args, st=s)
+    if r is None:
+        c.ret_top(st=s)
+        return
+    for (s2, rv, rloc, nf) in r:
+        outs = []
+        if isinstance(rv, Int) and not rv.is_const() and rloc is not None and rv.bits == 1:
+            for val in (0, 1):
+                sx = s2.copy() if val == 0 else s2
+                try:
+                    c.I.assume_var(sx, rloc, val, True)
+                    outs.append((sx, Int.const(val, 1, False)))
+                except Infeasible:
+                    pass
+        else:
+            outs.append((s2, rv))
+        for sx, v in outs:
+            c.I.write_place(sx, c.frame, c.term["dest"], v, c.I.lin_of(sx, v, rloc) if isinstance(v, Int) and not v.is_const() else None,
+                            rloc if not isinstance(v, Int) else None)
+            c.I.finish_closure(sx, nf)
+            c.results.append(sx)
+
+
 @model("std::option::Option::is_some_and", "std::result::Result::is_ok_and", "std::result::Result::is_err_and", "std::option::Option::is_none_or")
 def m_is_some_and(c):
     e, loc, _ = enum_arg(c)
@@ -1203,7 +1230,7 @@ def m_is_some_and(c):
     other = 1 if last == "is_none_or" else 0
     for idx, pay, s in split_enum(c, e, loc):
         if idx == subject:
-            run_closure_ret(c, s, clo, [(pay[0], payload_loc(loc, idx))])
+            run_closure_ret_bool(c, s, clo, [(pay[0], payload_loc(loc, idx))])
         else:
             c.ret(Int.const(other, 1, False), st=s)
 
